@@ -1925,3 +1925,57 @@ func c13ListValidatorTotal(c *Ctx) {
 		c.Fail(rule, "anchor", token.NoPos, "no list validator calling an element validator found in normalpath")
 	}
 }
+
+// ---- C18 (after round-6 seed C18-r) --------------------------------------------------------------------------------
+
+// c18EnabledAsGiven (ENABLED-AS-GIVEN): "with managed mode disabled the image is untouched": whether managed mode is on
+// is what the configuration says under `enabled` (or `managed` in v1beta1) and nothing else - not "on if any option is
+// set". Every store into the enabled member of the managed configuration stores a parameter or a member of the
+// external configuration as it is: no φ, no computation.
+func c18EnabledAsGiven(c *Ctx) {
+	const rule = "ENABLED-AS-GIVEN"
+	c.Rule(rule, "the managed-mode switch is stored as the configuration gives it", 2)
+	p := c.P
+	pk := p.Pkg("private/bufpkg/bufconfig")
+	if pk == nil {
+		c.Fail(rule, "anchor", token.NoPos, "bufconfig not found")
+		return
+	}
+	n := 0
+	for _, sf := range p.SSAFuncsOf([]*packages.Package{pk}) {
+		k := 0
+		for _, b := range sf.Blocks {
+			for _, ins := range b.Instrs {
+				st, ok := ins.(*ssa.Store)
+				if !ok {
+					continue
+				}
+				fa, ok := st.Addr.(*ssa.FieldAddr)
+				if !ok || !strings.HasSuffix(fieldName(fa.X.Type(), fa.Field), "generateManagedConfig.enabled") {
+					continue
+				}
+				n++
+				k++
+				v := stripConv(st.Val)
+				plain := false
+				switch t := v.(type) {
+				case *ssa.Parameter:
+					plain = true
+				case *ssa.UnOp:
+					if _, isField := t.X.(*ssa.FieldAddr); isField && t.Op == token.MUL {
+						plain = true
+					}
+				case *ssa.Field:
+					plain = true
+				case *ssa.Call:
+					// an accessor of another configuration object (copying a config)
+					plain = t.Call.IsInvoke() && len(t.Call.Args) == 0
+				}
+				c.Ob(rule, fmt.Sprintf("%s/enabled#%d", ssaFuncName(sf), k), st.Pos(), plain, true, "the stored switch is a parameter or a member read as is: %v (%T)", plain, v)
+			}
+		}
+	}
+	if n == 0 {
+		c.Fail(rule, "anchor", token.NoPos, "no store into generateManagedConfig.enabled found")
+	}
+}
